@@ -13,7 +13,12 @@ PROPS = {
     'C03': dict(
         title='Decoders are total',
         verus=[('u_zparse', ZDEC_FUNCS)],
-        kani=[],
+        kani=[dict(harness='k_scanner_classes', klass='complete', schema=['u8'], family=None, target='Scanner::is_* byte classes assumed by the units'),
+              dict(harness='k_u8_classes', klass='complete', schema=['u8'], family=None, target='u8::is_ascii_* assumed by the prelude'),
+              dict(harness='k_reader_chunks_small', klass='bounded', bound='2-byte stream, <= 1 Interrupted result, symbolic chunk lengths',
+                   target='Scanner::make / read_byte (reader contract)', timeout=600),
+              dict(harness='k_reader_chunks', klass='bounded', bound='3-byte stream, <= 2 Interrupted results, symbolic chunk lengths',
+                   target='Scanner::make / read_byte (reader contract)', timeout=1500, thorough_only=True)],
         witness='zinc',
         design_ref='DESIGN.md section 4, C03',
         level_text=('Proof (Verus, unbounded): panic-freedom and termination of the Zinc scanner, scalar parsers, lexer and '
@@ -247,5 +252,24 @@ PROPS = {
                      'that the error message is retrievable through last_error_message (thread-local); every constructor/getter that '
                      'crosses CStr/CString, borrowed entry pointers (*mut *const Value), dict, grid, datetime, zinc/json/filter entry points '
                      '-- about 87 of the 91 extern "C" functions.'),
+    ),
+    'C11': dict(
+        title='Re-encoding is stable; stream decoding equals buffer decoding',
+        verus=[('u_zparse', ZDEC_FUNCS)],
+        kani=[dict(harness='k_reader_chunks_small', klass='bounded', bound='2-byte stream, <= 1 Interrupted result, symbolic chunk lengths',
+                   target='Scanner::make / read_byte (reader contract)', timeout=600),
+              dict(harness='k_reader_chunks', klass='bounded', bound='3-byte stream, <= 2 Interrupted results, symbolic chunk lengths',
+                   target='Scanner::make / read_byte (reader contract)', timeout=1500, thorough_only=True)],
+        witness='zinc',
+        design_ref='DESIGN.md section 4, C11',
+        level_text=('Proof (Verus) of the second sentence only, as a frame argument: in the extracted decoder the reader is an opaque token '
+                    'that only Scanner::make and read_byte can touch; every other function of the scanner, lexer and parsers -- including the '
+                    'lazy row iterator and parse_grid, whose extracted body is checked to still be collect(RowIterator) -- is verified against '
+                    'the reader *contract* (one byte at a time, in order, EOF only at the end), so nothing above read_byte can observe how the '
+                    'reader chunks its bytes: decoding is a function of the byte sequence and the position of the first I/O error. The '
+                    'contract itself is cross-checked on the real make/read_byte by a bounded Kani harness with symbolic chunking.'),
+        not_decided=('(1) decode-encode-decode = decode: needs C01 for every value in the decoder\'s image; (3) that the lazy iterator '
+                     'consumes no further than the first token after a row (would need a token-level ghost trace of the lexer); the reader '
+                     'contract for streams longer than the bound (it is the documented behaviour of read_exact on a 1-byte buffer).'),
     ),
 }
